@@ -33,7 +33,7 @@ if __name__ == '__main__':
 
 import vlib  # noqa: E402
 
-PROPS = ['Props/C02.v']
+PROPS = ['Props/C02.v', 'Props/E2Emp.v']   # E2Emp: end-to-end multi-file composition
 
 VOLS = [0, 1, 9, 10, 11, 1000]       # result volumes per file ('E' = empty)
 WORDS = ['alpha', 'beta', 'gamma', 'delta', 'eps']
@@ -1352,6 +1352,10 @@ def run(chk):
     chk.dist('wall_structural_s', int(t1 - t0))
     chk.dist('wall_model_eval_s', int(t2 - t1))
     chk.dist('wall_observable_s', int(time.time() - t2))
+    # the end-to-end multi-file composition (Props/E2Emp.v): real multi-file
+    # runs against the composed per-file model + pipeline + statistics in Coq
+    import e2e
+    e2e.run_e2e_mp(chk, 7 if chk.quick else 30)
     chk.assumptions += [
         "multiprocessing.Manager().Queue(n) is a FIFO of capacity n whose "
         "put returns only after the item is enqueued (modelled; the "
